@@ -605,10 +605,9 @@ func (d *DiskKVTest) Sync() error {
 		panic("update called after Close()")
 	}
 	db := (*pebbledb)(atomic.LoadPointer(&d.db))
-	wb := db.db.NewBatch()
-	defer wb.Close()
-	wb.Set([]byte("dummy-key"), []byte("dummy-value"), db.syncwo)
-	return db.db.Apply(wb, db.syncwo)
+	// force a synced WAL write without touching the key space, which is hashed,
+	// snapshotted and visible to lookups
+	return db.db.LogData(nil, db.syncwo)
 }
 
 type diskKVCtx struct {
